@@ -7,6 +7,8 @@ CONSTANTS
   RelLens = TRUE
   MaxWrites = 4
   WriterFollowsOwnSCS = TRUE
-INVARIANTS NoDesync PrefixOk InFollowsOut AllDelivered HandshakeBytes
+  HsOrder = "serial"
+  HsReadExact = TRUE
+INVARIANTS NoDesync PrefixOk InFollowsOut AllDelivered HandshakeBytes HsExact NoByteLost SessionAfterHandshake
 PROPERTY AppendOnly
 CHECK_DEADLOCK FALSE
